@@ -52,6 +52,22 @@ CHECKS = {
         note='Filters restricted to integer-sample delays with integer gains (exact shift of the zero-padded FFT filter). '
              'Ray tracer / ray path objects (LazyObj) are covered through the tracer drivers of C02/C18 when built; '
              'until then the check decides the signal half of the property only.'),
+    'C07': dict(
+        spec='AskaryanRel.tla', design='12.1',
+        technique='TLA+ relation-algebra spec AskaryanRel.tla (input transformations with exactly predicted effect on the output) '
+                  'checked with TLC; its behaviours replayed on the real ZHS / AVZ / ARZ models on exact (dyadic) grids with the '
+                  'field compared with the base field through the spec bookkeeping at every state',
+        text='AskaryanRel.tla generates sequences of input transformations (distance times k, angle negated, grid and shower '
+             'time moved together, shower time moved by whole samples, energy times k for an EM shower on the cone, zero shower '
+             'energy by energy or by fractions, angle-lattice scan) and keeps, separately from the inputs, the predicted relation '
+             'of the current field to the base field (scale fraction, shift in samples, zero flag); TLC checks Consistent '
+             'exhaustively to depth 4 (6 thorough) over 3 models x 2 lengths (parity) x 2 steps x 3 EM/hadronic splits x 9 angles; '
+             'depth-6 simulations are executed on the real models with every field compared (1e-9 of the peak), of the right '
+             'length and finite.',
+        note='Decides the exact relational clauses (1/R, |angle|, joint shift, whole-sample shift, finiteness, zero energy, on-cone '
+             'EM energy proportionality) and, on a 0.02 rad lattice only, largest-on-cone and monotone fall-off. Between lattice '
+             'points the fall-off clause is numerical and is not decided; the ARZ model violates it on a 0.005 rad lattice (open '
+             'known finding D29). Grids are dyadic (2^-31 s, 2^-30 s) so that the arithmetic is exact; uniform ice n = 1.78.'),
     'C09': dict(
         spec='AntennaHits.tla', design='4.4',
         text='AntennaHits.tla models the incremental caches behind all_waveforms / waveforms / is_hit, full_waveform over '
@@ -163,7 +179,6 @@ CHECKS = {
 NOT_APPLICABLE = {
     'C01': 'purely numerical (closed-form integrals / root search against a continuous index profile); no discrete state for a TLA+ model, see DESIGN.md section 6',
     'C03': 'purely numerical (attenuation integrals, Fresnel magnitudes, energy inequality of one pure function); the grid-delay clause is observed inside C10 traces',
-    'C07': 'purely numerical scaling laws of pulse parameterisations; no state or case structure for a TLA+ model',
     'C15': 'purely numerical (quadrature accuracy of a line integral); no state to model',
     'C17': 'statistical/spectral statement about random waveforms; the absolute-time clause is exercised in C09',
     'C20': 'static property of the source text against library versions; nothing evolves (the import defect D0 it describes was repaired as a precondition, see known_findings.json)',
